@@ -338,4 +338,140 @@ fn u12_position(n: usize) {
 	}
 	std::mem::forget(node);
 }
+
+
+// ================================================================== U70: Node::insert_node (a separator and its right child come up from a split child)
+// The in-order content of the subtree must be preserved: reading (left node, separator handed up, right node) in order gives the
+// old separators with the new one at position `at`, and the old children with the new child right behind position `at`; both
+// nodes are packed and hold at most ORDER separators.  Node::write_split_child (stores the right node) is replaced by a recorder.
+pub(crate) static mut SPLIT_RIGHT: Option<Node> = None;
+pub(crate) fn stub_write_split_child(right_ix: Option<Address>, right: Node, _btree: TablesRef, _log: &mut LogWriter) -> Result<Child> {
+	unsafe {
+		SPLIT_RIGHT = Some(right);
+	}
+	Ok(Child { moved: true, entry_index: Some(Address::from_u64(9999)) })
+}
+fn count_seps(n: &Node) -> usize {
+	let mut k = 0;
+	while k < ORDER && n.separators[k].separator.is_some() {
+		k += 1;
+	}
+	k
+}
+fn packed(n: &Node, inner: bool) -> bool {
+	// no separator behind the first empty slot; inner nodes: a child for every position 0..=count, none behind
+	let c = count_seps(n);
+	let mut k = c;
+	let mut ok = true;
+	while k < ORDER {
+		if n.separators[k].separator.is_some() {
+			ok = false;
+		}
+		k += 1;
+	}
+	if inner {
+		let mut j = 0;
+		while j <= ORDER {
+			let has = n.children[j].entry_index.is_some();
+			if (j <= c) != has {
+				ok = false;
+			}
+			j += 1;
+		}
+	}
+	ok
+}
+fn u70_insert_node(n: usize, at: usize) {
+	let tables: [crate::table::ValueTable; 0] = [];
+	let no = crate::compress::Compress::new(crate::compress::CompressionType::NoCompression, u32::MAX);
+	let tr = TablesRef { tables: &tables, compression: &no, col: 0, preimage: false, ref_counted: false };
+	let overlays: &'static crate::parking_lot::RwLock<crate::log::LogOverlays> = Box::leak(Box::new(crate::parking_lot::RwLock::new(crate::log::LogOverlays::with_columns(0))));
+	let w: &'static mut LogWriter<'static> = Box::leak(Box::new(LogWriter::new(overlays, 7)));
+	let mut node = mk_node(n, true, 1000);
+	unsafe {
+		SPLIT_RIGHT = None;
+	}
+	let sep = tag_sep(5000);
+	let child = Child { moved: true, entry_index: Some(Address::from_u64(6000)) };
+	let r = ok(node.insert_node(1, at, sep, child, tr, w));
+	assert!(r.is_some(), "U70.insert_node.no_error");
+	let up = r.unwrap();
+	// expected in-order sequences
+	let mut want_s = [0u64; 10];
+	let mut want_c = [0u64; 11];
+	let mut k = 0;
+	while k < n + 1 {
+		want_s[k] = if k < at { 1001 + k as u64 } else if k == at { 5000 } else { 1000 + k as u64 };
+		k += 1;
+	}
+	let mut j = 0;
+	while j < n + 2 {
+		want_c[j] = if j <= at { 1101 + j as u64 } else if j == at + 1 { 6000 } else { 1100 + j as u64 };
+		j += 1;
+	}
+	// actual in-order sequences
+	let mut got_s = [0u64; 10];
+	let mut got_c = [0u64; 11];
+	let nl = count_seps(&node);
+	assert!(packed(&node, true), "U70.insert_node.left_node_is_packed");
+	let mut gs = 0;
+	let mut gc = 0;
+	let mut i = 0;
+	while i < nl {
+		got_s[gs] = sep_tag(&node, i);
+		gs += 1;
+		i += 1;
+	}
+	let mut i = 0;
+	while i <= nl {
+		got_c[gc] = child_tag(&node, i);
+		gc += 1;
+		i += 1;
+	}
+	match &up {
+		None => {
+			assert!(n < ORDER, "U70.insert_node.a_full_node_is_split");
+			assert!(unsafe { SPLIT_RIGHT.is_none() }, "U70.insert_node.no_node_is_written_without_a_split");
+		},
+		Some((s, c)) => {
+			assert!(n == ORDER, "U70.insert_node.only_a_full_node_is_split");
+			assert!(c.entry_index.map(|a| a.as_u64()) == Some(9999), "U70.insert_node.right_child_handed_up_is_the_node_written");
+			let right = unsafe { SPLIT_RIGHT.as_ref() };
+			assert!(right.is_some(), "U70.insert_node.right_node_is_written");
+			let right = right.unwrap();
+			assert!(packed(right, true), "U70.insert_node.right_node_is_packed");
+			let nr = count_seps(right);
+			assert!(nl >= 1 && nr >= 1 && nl + nr == ORDER, "U70.insert_node.both_halves_hold_separators_and_none_is_lost");
+			got_s[gs] = match s.separator.as_ref() { Some(x) => x.value.as_u64(), None => 0 };
+			gs += 1;
+			let mut i = 0;
+			while i < nr {
+				got_s[gs] = sep_tag(right, i);
+				gs += 1;
+				i += 1;
+			}
+			let mut i = 0;
+			while i <= nr {
+				got_c[gc] = child_tag(right, i);
+				gc += 1;
+				i += 1;
+			}
+		},
+	}
+	assert!(gs == n + 1 && gc == n + 2, "U70.insert_node.one_separator_and_one_child_more");
+	let mut k = 0;
+	while k < 10 {
+		assert!(got_s[k] == want_s[k], "U70.insert_node.separators_in_order_with_the_new_one_at_its_position");
+		k += 1;
+	}
+	let mut j = 0;
+	while j < 11 {
+		assert!(got_c[j] == want_c[j], "U70.insert_node.children_in_order_with_the_new_child_right_of_the_new_separator");
+		j += 1;
+	}
+	kani::cover!(true, "reached");
+	std::mem::forget(up);
+	std::mem::forget(node);
+}
+
 /*@@GENERATED:btree_node@@*/
